@@ -47,6 +47,32 @@ def build_param_case(cfg):
         cls = M.PositiveDiagonalMatrix if k == "pos_diagonal" else M.DiagonalMatrix
         return d0, lambda t: cls(t.copy()), lambda t: np.diag(t), [(i,) for i in range(n)], \
             "vector"
+    if k.startswith("tri_factored") and k.count("_") == 4:
+        # tri_factored_{pos|neg|pd}_{lower|upper}_{obj|scaled|negated|inv}: the factor is handed
+        # over as a TriangularMatrix object, or the matrix is derived from another one
+        _, _, sg, lo, how = k.split("_")
+        lower = lo == "lower"
+        sign = -1 if sg == "neg" else 1
+        T0 = mzoo.P_tri(n, seed, lower)
+        free = [(i, j) for i in range(n) for j in range(n) if (i >= j if lower else i <= j)]
+
+        def base(t, sign=sign):
+            if sg == "pd":
+                return M.TriangularFactoredPositiveDefiniteMatrix(
+                    M.TriangularMatrix(t.copy(), lower=lower))
+            return M.TriangularFactoredDefiniteMatrix(
+                M.TriangularMatrix(t.copy(), lower=lower), sign=sign)
+
+        struct = "triangular_lower" if lower else "triangular_upper"
+        if how == "obj":
+            return T0, base, lambda t: sign * t @ t.T, free, struct
+        if how == "scaled":
+            c = 2.5
+            return (T0, lambda t: c * base(t / np.sqrt(c)), lambda t: sign * t @ t.T, free,
+                    struct)
+        if how == "negated":
+            return T0, lambda t: -base(t), lambda t: -sign * t @ t.T, free, struct
+        raise KeyError(k)
     if k.startswith("tri_factored"):
         # tri_factored_{pos|neg|pd}_{lower|upper}
         _, _, sg, lo = k.split("_")
@@ -116,6 +142,8 @@ KINDS = (
     ["scaled_identity_pos", "scaled_identity_neg", "pos_scaled_identity", "diagonal",
      "pos_diagonal"]
     + [f"tri_factored_{s}_{l}" for s in ("pos", "neg", "pd") for l in ("lower", "upper")]
+    + [f"tri_factored_{s}_{l}_{h}" for s in ("pos", "neg", "pd") for l in ("lower", "upper")
+       for h in ("obj", "scaled", "negated")]
     + ["dense_definite_pos", "dense_definite_neg", "dense_pd", "dense_pd_product",
        "dense_pd_product_inner"]
     + [f"softabs_{c}_{v}" for c in ("0.5", "1.0", "10.0")
